@@ -269,3 +269,53 @@ def r4_exhaustive(ctx):
 
 
 RULES = [r1_polarity, r1w_widening, r2_delegation, r3_prologues]
+
+
+# ------------------------------------------------------------------ sortedness typing (disjunctive intervals)
+DI = "include/crab/domains/dis_interval_impl.hpp"
+DIC = "crab::domains::dis_interval"
+
+
+def r5_sorted_lists(ctx):
+    ctx.rule("C08.r5", "dis_interval: approx(list) = first | last is only the hull of a SORTED list, so it is applied only to the "
+             "normalised member m_list of a value or to the result of normalize()", floor=3)
+    callers = ctx.db.fns(DI, cpk=DIC)
+    if not ctx.need(callers, "dis_interval members"):
+        return
+    # confirm the premise: the list overload of approx joins the first and the last element only
+    ap = [f for f in callers if f["name"] == "approx" and len(f.get("params", [])) == 1]
+    if not ap:
+        ctx.undecided("dis_interval::approx(list) not found", callers[0], callers[0]["body"])
+        return
+    premise = all(any(x.get("k") == "call" and x.get("op") == "|" for x in walk(f["body"])) and
+                  not any(x.get("k") in ("for", "while", "rangefor") for x in walk(f["body"])) for f in ap)
+    if not premise:
+        for f in ap:
+            ctx.ok("approx(list) folds over the whole list: no sortedness premise", f, f["body"])
+        return
+    n = 0
+    for fn in callers:
+        body = fn["body"]
+        d = local_decls(body)
+        for c in walk(body):
+            if not (is_call(c, name="approx") and len(c.get("a", [])) == 1):
+                continue
+            a = strip(c["a"][0])
+            n += 1
+            okk = False
+            if is_field(a, "m_list"):
+                okk = True
+            elif isinstance(a, dict) and a.get("k") == "ref" and a.get("rk") == "local":
+                r = resolve_local(body, a, d)
+                okk = is_call(strip_move(r), name="normalize") or is_field(strip(r), "m_list")
+            if okk:
+                ctx.ok("%s: approx(%s)" % (fn["name"], src(a)), fn, c)
+            else:
+                ctx.bad("dis_interval::%s applies approx(list), which joins only the FIRST and the LAST element, to `%s`, a list that is "
+                        "not known to be normalised (sorted): intervals in the middle that extend beyond the two ends are lost" %
+                        (fn["name"], src(a)), fn, c, sig="approx-unsorted:%s:%s" % (fn["name"], src(a)))
+    if n == 0:
+        ctx.fail("rule C08.r5: no call of approx(list) found")
+
+
+RULES += [r5_sorted_lists]
